@@ -2,8 +2,11 @@
 """Regenerate MANIFEST.json from engines.json + props_meta.json (kept valid at all times)."""
 import json, os, subprocess
 V = os.path.dirname(os.path.dirname(os.path.abspath(__file__)))
-eng = json.load(open(os.path.join(V, "engines.json")))
-meta = json.load(open(os.path.join(V, "props_meta.json")))
+eng = {f[:-5]: json.load(open(os.path.join(V, "engines", f))) for f in sorted(os.listdir(os.path.join(V, "engines"))) if f.endswith(".json")}
+na_reasons = json.load(open(os.path.join(V, "not_applicable.json")))
+meta = {}
+for e in eng.values():
+    meta.update(e.get("props_meta", {}))
 props = [json.loads(l)["id"] for l in open(os.path.join(V, "properties.jsonl"))]
 claimed = {}
 for name, e in eng.items():
@@ -25,7 +28,7 @@ for p in props:
             "technique": m.get("technique", "deterministic simulation with fault injection: seeded search over schedules, histories and faults against the real code, oracle = reference model / invariants"),
         })
     else:
-        na.append({"property_id": p, "reason": m.get("na_reason", "not claimed in this revision: harness not built yet (planned engine per DESIGN.md section 3)")})
+        na.append({"property_id": p, "reason": na_reasons.get(p, "not claimed in this revision: harness not built yet (planned engine per DESIGN.md section 3)")})
 hooks = json.load(open(os.path.join(V, "hooks.json")))
 man = {
     "version": 1,
